@@ -488,6 +488,8 @@ func (w *world) finalChecks() {
 		c.Probe("empty_block_applied_past_deferred_action")
 	}
 	// C11: a fresh node replays the whole chain served from an existing node's archive
+	// (a node that crashed in the last step may have rolled back: everybody catches up first)
+	w.levelUp()
 	src := w.upNodes()[0]
 	fresh := w.newNode(len(w.nodes), w.pickKeyOf("ed25519").key, "fresh")
 	w.nodes = append(w.nodes, fresh)
